@@ -2,6 +2,7 @@ package main
 
 import (
 	"bufio"
+	"bytes"
 	"context"
 	"errors"
 	"io"
@@ -24,6 +25,7 @@ import (
 //          4 as 1, but the stream is the body of the connection's SECOND attempt.  The first response's body is <first>
 //            (one read, clean end): a stream that may set, change and reset the last event ID.  Its events are not part
 //            of the observation; what it leaves behind is the ID the stream under test must be interpreted with.
+//            (x<first> = "s" | "b" | "f": the reader handed to Read is a *strings.Reader / *bytes.Reader / *bytes.Buffer itself)
 //          5 sse.Read's iterator ranged over twice; written out as the entry-0 case the second range is (see postParse)
 //          2 read() as a Connection calls it (retry callback, EOF reported), initial last event ID id0
 //          3 read() as sse.Read calls it (no retry callback, EOF ignored), initial last event ID id0
@@ -202,6 +204,35 @@ func execParse(in val.V) (out val.V) {
 		if entry == 5 {
 			return execParseTwice(in, rd, stop, cfg)
 		}
+		if kind := in.At(6).Str(); kind != "" {
+			// the caller hands Read one of the standard in-memory readers itself (they have Len, WriteTo, ReadByte ...): the
+			// same bytes, read the same way as one chunk
+			var whole []byte
+			for _, c := range chunks {
+				whole = append(whole, c...)
+			}
+			var r io.Reader
+			var left func() int
+			switch kind {
+			case "s":
+				sr := strings.NewReader(string(whole))
+				r, left = sr, sr.Len
+			case "b":
+				br := bytes.NewReader(whole)
+				r, left = br, br.Len
+			default:
+				bb := bytes.NewBuffer(whole)
+				r, left = bb, bb.Len
+			}
+			pulledNow := func() int { return len(whole) - left() }
+			defer func() {
+				if r := recover(); r != nil {
+					out = val.L(val.List(yields), val.Int(pulledNow()), val.N(1))
+				}
+			}()
+			sse.Read(r, cfg)(consume)
+			return val.L(val.List(yields), val.Int(pulledNow()), val.N(0))
+		}
 		sse.Read(rd, cfg)(consume)
 	case 1, 4:
 		ctx, cancel := context.WithCancel(context.Background())
@@ -283,6 +314,7 @@ type parseCase struct {
 	capBuf  int
 	maxSize int64
 	id0     string
+	reader  string // entry 0, one chunk, clean end: "s" / "b" / "f" hands Read that standard reader itself
 }
 
 func (pc parseCase) emit(c *Ctx) {
@@ -314,6 +346,13 @@ func (pc parseCase) emit(c *Ctx) {
 		stop = val.L(val.Int(pc.stop))
 	}
 	first := ""
+	if entry == 0 && len(chunks) <= 1 && pc.ending.K == 'n' && pc.ending.Num() == 0 && (pc.reader != "" || c.R.Bool()) {
+		first = pc.reader
+		if first == "" {
+			first = rng.Pick(c.R, []string{"s", "b", "f"})
+		}
+		c.Count("in-memory-reader:" + first)
+	}
 	if entry == 1 && c.R.Intn(3) == 0 {
 		entry = 4
 		if k := c.R.Intn(len(parseFirstBodies) + 3); k < len(parseFirstBodies) {
@@ -729,6 +768,14 @@ func genParse(c *Ctx) {
 					}
 					count("sized:big")
 					pc.emit(c)
+					if by == 0 {
+						// the same through Read with each standard in-memory reader, with the limit Read can be given
+						for _, rk := range []string{"s", "b", "f"} {
+							pr := parseCase{entry: 0, stream: s, ending: val.N(0), stop: -1, maxSize: b.limit, reader: rk}
+							count("sized:big:in-memory-reader")
+							pr.emit(c)
+						}
+					}
 				}
 			}
 		}
